@@ -374,7 +374,29 @@ def make_hooks(builder):
             I.py_raise('ValueError', 'invalid literal for int()')
         return v
 
-    return {'len': b_len, 'opaque_attr': opaque_attr, 'external': external, 'str_of': str_of, 'mutation': None, 'int_of_str': int_of_str}
+    def opaque_eq(it, a, b):
+        """equality of register FIELDS as written (not of the registers they name): same type and same spelling"""
+        regs = it.mods['asm'].vars.get('REGISTERS', {}) if 'asm' in it.mods else {}
+        if isinstance(a, RegOperand) and isinstance(b, RegOperand) and hasattr(a, 'sid') and hasattr(b, 'sid'):
+            same = z3.And(a.is_str == b.is_str, z3.If(a.is_str, a.sid == b.sid, a.num.t == b.num.t))
+            # one spelling names one register
+            it.run.assume(z3.Implies(same, z3.And(a.num.t == b.num.t, a.valid == b.valid)))
+            return I.Sym('bool', same)
+        for x, y in ((a, b), (b, a)):
+            if isinstance(x, RegOperand) and hasattr(x, 'sid') and isinstance(y, (str, int)) and not isinstance(y, bool):
+                if isinstance(y, str):
+                    same = z3.And(x.is_str, x.sid == I.str_id(y))
+                    if y in regs:
+                        it.run.assume(z3.Implies(same, z3.And(x.valid, x.num.t == regs[y])))
+                    else:
+                        it.run.assume(z3.Implies(same, z3.Not(x.valid)))
+                else:
+                    same = z3.And(z3.Not(x.is_str), x.num.t == y)
+                return I.Sym('bool', same)
+        return None
+
+    return {'len': b_len, 'opaque_attr': opaque_attr, 'external': external, 'str_of': str_of, 'mutation': None, 'int_of_str': int_of_str,
+            'opaque_eq': opaque_eq}
 
 
 # ---------------------------------------------------------------------------
